@@ -377,7 +377,7 @@ func (s cmap6or10) Lookup(r rune) (GID, bool) {
 		return 0, false
 	}
 	c := int(r - s.firstCode)
-	if c >= len(s.entries) {
+	if c < 0 || c >= len(s.entries) { // c may overflow for an invalid (negative) firstCode
 		return 0, false
 	}
 	return GID(s.entries[c]), true
